@@ -302,8 +302,8 @@ def preserve_sets(source: str, rnd=None, single=True, quick=True):
         return [list(c) for k in range(len(keys) + 1) for c in itertools.combinations(keys, k)]
     sets = [[], keys, keys[::2]]
     if single or not quick:
-        sets += [[k] for k in keys[:8]]
+        sets += [[k] for k in keys[: (8 if single else 3)]]
     if rnd is not None and len(keys) > 1:
-        for _ in range(1 if quick else 4):
+        for _ in range(1 if quick else 2):
             sets.append(sorted(rnd.sample(keys, rnd.randint(1, len(keys) - 1))))
     return sets
